@@ -151,3 +151,7 @@ PROPERTY = Property(
          "within the numerical budget of DESIGN.md 4.4; non-trivial = n >= 3; distinct by SHA-1",
     assumptions=["cases with a TM pair within 1e-3 (relative, in Gaussian mass) of a branch threshold are excluded from the ulp-stability comparison (counted)"],
 )
+
+from vf import opt as _opt  # noqa: E402
+
+PROPERTY.clauses.append(_opt.optimised("C04", next(c for c in PROPERTY.clauses if c.name == "permutation-equivariance"), quick=32, thorough=320))
